@@ -20,7 +20,9 @@ EventClauses(sb, s, e, ev, T) ==
      <<"C17:HookChainFollowsTheNesting", ev.act # "Exit" => ev.hook = s.hook>>,
      <<"C17:ChildrenAppendedInOrderUnderTheChildRules", KidsEq(s, ev, T)>>,
      <<"C17:EachTagHandedExactlyOnceOnExitToTheEnclosingHook", ev.base = s.base>>,
-     <<"C17:InvalidValueRejectedWithTypeError", (ev.act = "Display" /\ ev.v \in BadVals) => ev.exc = "TypeError">>,
+     <<"C17:InvalidValueRejectedWithTypeError",
+          ((ev.act = "Display" /\ ev.v \in BadVals) => ev.exc = "TypeError")
+          /\ ((ev.act = "DisplayC") => (ev.caught = (ev.v \in BadVals)))>>,
      <<"C17:ReenteringAnActiveTagRaises", (ev.act = "Enter" /\ Active(sb, ev.t)) => ev.raised>>,
      <<"C17:ExceptionsPropagateUnchanged", ev.exc = s.exc>> >>
 
